@@ -179,11 +179,14 @@ def main(argv=None):
     results = [None] * len(cases)
     errors = []
     ctx = mp.get_context("spawn")
-    with ctx.Pool(nw, initializer=_init_worker, initargs=(modname, x64)) as pool:
-        for idx, res in pool.imap_unordered(_work, list(enumerate(cases)), chunksize=1):
-            if "error" in res:
-                errors.append((idx, res))
-            results[idx] = res
+    # a case may ask for its own floating-point mode ("x64" key); one pool per mode
+    for mode in sorted({bool(c.get("x64", x64)) for c in cases}):
+        items = [(i, c) for i, c in enumerate(cases) if bool(c.get("x64", x64)) == mode]
+        with ctx.Pool(min(nw, len(items)), initializer=_init_worker, initargs=(modname, mode)) as pool:
+            for idx, res in pool.imap_unordered(_work, items, chunksize=1):
+                if "error" in res:
+                    errors.append((idx, res))
+                results[idx] = res
 
     if errors:
         for idx, res in errors[:5]:
